@@ -194,3 +194,44 @@ def size(e):
     if t in ("pow", "fn"):
         return 1 + size(e[1] if t == "pow" else e[2])
     return 1 + size(e[1]) + size(e[2])
+
+
+def gen_linear_definition(rng, singular=False, n=None):
+    """bounded linear(ish) dynamics for long histories: x' = x + dt * (small linear combination), optionally with
+    exactly correlated states / constant states so that the process Jacobian is singular"""
+    names = rng.sample(NAME_POOL, len(NAME_POOL))
+    ns = n or rng.randint(2, 4)
+    nu = rng.randint(0, 2)
+    state, control = names[:ns], names[ns:ns + nu]
+    sm = {}
+    for s in state:
+        terms = var(s)
+        for o in rng.sample(state + control, min(2, len(state + control))):
+            terms = add(terms, mul(var("dt"), mul(num(rng.choice([1, -1, 1]), rng.choice([4, 8])), var(o))))
+        sm[s] = terms
+    if singular:
+        kind = rng.choice(["copy", "project", "zero"])
+        if kind == "copy":
+            sm[state[1]] = sm[state[0]]
+        elif kind == "project":
+            sm[state[-1]] = add(mul(num(-981, 100), var(state[0])), (var(control[0]) if control else num(1)))
+        else:
+            sm[state[-1]] = num(0)
+    keys = rng.sample(SENSOR_POOL, rng.randint(1, 2))
+    sensors = {}
+    for k in keys:
+        rd = rng.sample(READING_POOL, rng.randint(1, 2))
+        sensors[k] = {r: add(var(rng.choice(state)), mul(num(1, 2), var(rng.choice(state)))) for r in rd}
+    return {"dt": "dt", "state": state, "control": control, "calibration": [], "state_model": sm, "sensors": sensors,
+            "process_noise": {u: rng.choice([0.25, 1.0, 0.0625]) for u in control},
+            "sensor_noise": {k: {r: rng.choice([0.25, 1.0]) for r in rd} for k, rd in sensors.items()},
+            "calibration_map": {}, "rational": True}
+
+
+def mass_zva_definition():
+    """the project's own example (featuretests/managed_filter): singular process Jacobian"""
+    sm = {"mass": var("mass"), "z": add(var("z"), mul(var("dt"), var("v"))), "v": add(var("v"), mul(var("dt"), var("a"))),
+          "a": add(mul(num(-981, 100), var("mass")), var("thrust"))}
+    return {"dt": "dt", "state": ["mass", "z", "v", "a"], "control": ["thrust"], "calibration": [], "state_model": sm,
+            "sensors": {"simple": {"alt": var("z")}}, "process_noise": {"thrust": 1.0}, "sensor_noise": {"simple": {"alt": 1.0}},
+            "calibration_map": {}, "rational": True}
